@@ -52,9 +52,9 @@ A_chunks(L, o) == \A p \in Common(L, o) : o.nodes[p].err = "" =>
     IF IsReg(L, p) THEN o.nodes[p].of = "ok" /\ o.nodes[p].ck = ChunkTable(L, RegIdx(L, p))
     ELSE o.nodes[p].of = "err"
 A_bytes(L, o) == \A p \in Common(L, o) : (o.nodes[p].err = "" /\ IsReg(L, p)) =>
-    /\ o.nodes[p].rd = BytesOf(L, RegIdx(L, p))
+    /\ o.nodes[p].rd = ReadTable(L, RegIdx(L, p))
     /\ o.nodes[p].all = BytesOf(L, RegIdx(L, p))
-    /\ o.nodes[p].prd = BytesOf(L, RegIdx(L, p))
+    /\ o.nodes[p].prd = ReadTable(L, RegIdx(L, p))
 A_pre(L, o) == \A p \in Common(L, o) : (o.nodes[p].err = "" /\ IsReg(L, p)) =>
     PcbObs(o.nodes[p]) = PcbRef(L, RegIdx(L, p))
 A_off(L, o) == \A p \in Common(L, o) : o.nodes[p].err = "" =>
